@@ -118,3 +118,13 @@ Definition mount_under_default_error_handler (o : options) : slice :=
   if o_error_handler o then [] else indexed (o_mws o).
 Definition mounted_trace (mnt : options -> slice) (fw : flavour) (ftl : bool) (strict : option (list mw)) (o : options)
   : list event := snd (serve fw ftl strict (mnt o)).
+
+(** * The counting loop of the first-to-last variants: [for i := len(s) - 1; i >= 0; i-- { handler = s[i](handler) }].
+      [countdown k s] visits the indices k-1, ..., 0; [countdown_stopping_early] is the loop with the bound [i > 0]. *)
+Fixpoint countdown (k : nat) (s : slice) : slice :=
+  match k with O => [] | S j => match nth_error s j with Some m => m :: countdown j s | None => countdown j s end end.
+Fixpoint countdown_stopping_early (k : nat) (s : slice) : slice :=
+  match k with
+  | O | S O => []
+  | S j => match nth_error s j with Some m => m :: countdown_stopping_early j s | None => countdown_stopping_early j s end
+  end.
